@@ -17,12 +17,33 @@ from pjrpc.common.exceptions import IdentityError, JsonRpcError, ServerError
 
 from mc.core import HarnessError, explore_choices
 from mc.harness.client import make_client
-from mc.harness.methods import MARK, registered_error
+from mc.harness.methods import MARK, _pause, registered_error
 from mc.refmodel import wire
 from mc.refmodel.server import typed_eq
 
 from .common_server import norm
 from mc.vloop import VLoop
+
+class Hier07(JsonRpcError):
+    """documented pattern: the client is given a base class that resolves error codes within its own hierarchy"""
+    @classmethod
+    def get_error_cls(cls, code, default):
+        return next(iter((c for c in cls.__subclasses__() if getattr(c, 'code', None) == code)), default)
+
+
+class Denied07(Hier07):
+    code = 7301
+    message = 'denied'
+
+
+class _OtherHier07(JsonRpcError):
+    pass
+
+
+class _OtherDenied07(_OtherHier07):     # the same code in an unrelated hierarchy, registered later process-wide
+    code = 7301
+    message = 'other'
+
 
 VALS = [None, 0, 'x', [1, 'a'], {'k': None}, 1.5, {}, '', False]
 ARGSHAPES = ['none', 'p1', 'p2', 'n1', 'n2']
@@ -87,6 +108,10 @@ class Served:
             log.append(('ferr', a, b))
             raise TErr(7001, 'typed', data=a)
 
+        def herr(a='da', b='db'):
+            log.append(('herr', a, b))
+            raise Denied07(data=[a])
+
         def uerr(a='da', b='db'):
             log.append(('uerr', a, b))
             raise JsonRpcError(4444, 'untyped')
@@ -95,14 +120,16 @@ class Served:
             log.append(('boom', a, b))
             raise ValueError(MARK)
 
-        self.funcs = dict(echo=echo, terr=terr, ferr=ferr, uerr=uerr, boom=boom)
+        self.funcs = dict(echo=echo, terr=terr, ferr=ferr, herr=herr, uerr=uerr, boom=boom)
 
     def register(self, disp, is_async):
         for name, f in self.funcs.items():
             if is_async:
                 def mk(f):
                     async def co(a='da', b='db'):
-                        return f(a, b)
+                        r = f(a, b)
+                        await _pause()      # later started calls complete earlier (reverse completion order)
+                        return r
                     return co
                 disp.add(mk(f), name=name)
             else:
@@ -130,7 +157,7 @@ def args_for(shape, i):
     return {'none': ((), {}), 'p1': ((v,), {}), 'p2': ((v, w), {}), 'n1': ((), {'a': v}), 'n2': ((), {'a': v, 'b': w})}[shape]
 
 
-def build_system(pair, served, idgen, strict):
+def build_system(pair, served, idgen, strict, hier=False):
     ckind, dkind = pair
     disp = pjrpc.server.AsyncDispatcher() if dkind == 'async' else pjrpc.server.Dispatcher()
     served.register(disp, dkind == 'async')
@@ -153,7 +180,7 @@ def build_system(pair, served, idgen, strict):
                 return to_text(loop.run(disp.dispatch(text)))
             finally:
                 loop.close()
-    return make_client(ckind, responder, id_gen_impl=IDGENS[idgen](), strict=strict)
+    return make_client(ckind, responder, id_gen_impl=IDGENS[idgen](), strict=strict, **({'error_cls': Hier07} if hier else {}))
 
 
 def drive(ckind, thunk):
@@ -251,7 +278,7 @@ def run_single(case, rec):
             Rnd.env, Rnd.counter = env, 0
             served = Served()
             want, want_log = direct(served, method, args, kwargs)
-            client = build_system(pair, served, case['idgen'], case['strict'])
+            client = build_system(pair, served, case['idgen'], case['strict'], hier=(method == 'herr'))
             try:
                 out = drive(pair[0], single_thunk(client, notation, method, args, kwargs, None))
             finally:
@@ -433,7 +460,7 @@ def gen_cases(ctx):
     for pair in pairs:
         for idgen in IDGENS:
             for strict in (True, False):
-                for method in ('echo', 'terr', 'ferr', 'uerr', 'boom'):
+                for method in ('echo', 'terr', 'ferr', 'herr', 'uerr', 'boom'):
                     for shape in ARGSHAPES:
                         for vi in (range(len(VALS)) if shape != 'none' else [0]):
                             if idgen not in ('sequential', 'randint12') and vi > 1:
